@@ -50,3 +50,11 @@ prop("C05", "exploration",
 prop("C23", "exploration",
      "same lifecycle world; at every quiescent step at which no goroutine of the node is held at one of the simulator's internal yields, PeerState(...) of every node is compared with its task queue through Diagnostics(); Stats() must be zero at the end",
      _b(1500, 90, 60000, 1500), probes=["c23-peerstate-compared"])
+
+prop("C06", "fault_enumeration",
+     "the C02 world (generated DAG, selector, 4-way store split, real requestor and responder) plus one pause and one resume: side in {requestor, responder} x mechanism in {block hook at block index 1..10, API call from step 0..80} x resume delay 0..30 steps, in two families kept apart: quiet (resume offered only when nothing is in flight) and racing (resume at any time); compared with the uninterrupted reference traversal; wire monitor for block data while paused; distinct = distinct trace hash",
+     _b(1500, 90, 60000, 1500), probes=["c06-resume:requestor/hook", "c06-resume:requestor/api", "c06-resume:responder/hook", "c06-resume:responder/api"],
+     technique="deterministic simulation; pause point, side and mechanism enumerated over runs, message timing by seeded schedules; reference-traversal oracle")
+prop("C20", "exploration",
+     "2-4 concurrent requests from one real requestor to one real responder over one generated DAG with heavy sharing (roots drawn among its dag-cbor blocks), default dedup scope, 4-way store split; per request the delivered nodes must contain, in order, everything the request delivers when run alone and nothing outside a traversal over the union of both stores; distinct = distinct trace hash",
+     _b(1500, 90, 60000, 1500))
